@@ -27,6 +27,7 @@ type job struct {
 	Faults  bool       `json:"faults,omitempty"`
 	Pre     int        `json:"pre,omitempty"` // preemption bound override (0 = tier default)
 	FK      int        `json:"fk,omitempty"`  // fault kinds on fault jobs: 0/2 = rpc error object + transport error, 1 = rpc error object only
+	NoCache bool       `json:"nocache,omitempty"` // the client is the UNCACHED one (url option "nocache"): ties the reference to "as an uncached client would"
 }
 
 func (j job) String() string {
@@ -37,6 +38,9 @@ func (j job) String() string {
 	s := fmt.Sprintf("m=%d [%s] init=%d", j.M, strings.Join(ps, " | "), j.Init)
 	if len(j.Env) > 0 {
 		s += fmt.Sprintf(" env=%v", j.Env)
+	}
+	if j.NoCache {
+		s += " nocache"
 	}
 	if j.Faults {
 		s += " +faults"
@@ -215,6 +219,9 @@ func execJob(j job, ch vrt.Chooser, states *vrt.StateSet, trace bool) (res execR
 	ctx := context.Background()
 	w.Run(func() {
 		c := jrpc2.New(nodeURL).WithMaxReads(j.M)
+		if j.NoCache {
+			c = jrpc2.New(nodeURL + "/?nocache").WithMaxReads(j.M)
+		}
 		if j.Faults {
 			w.RPCFaultKinds = 2
 			if j.FK > 0 {
